@@ -120,8 +120,9 @@ def units():
              ensures={"assigned_is_engaged_exactly_when_source_was": "($0->hasValue != 0) == (OLD($1->hasValue) != 0)", "assigned_holds_live_payload_iff_engaged": INV0,
                       "assigned_has_source_value": "IMP($0->hasValue != 0, %s == OLD(%s))" % (VAL("$0"), VAL("$1")),
                       "source_still_consistent": "IMP($1 != $0, %s)" % INV1, "returns_self": "RET == $0"})
-    U.fn("op_assign_value", harness=custom("op_assign_value(&A, &V)", ret="OptProbe *"), requires=[REG0, INV0], assigns=["*$0"] + G,
-         ensures={"other_tracked_storage_untouched": "(g_live[1] != 0) == (OLD(g_live[1]) != 0)", "assigned_value_engages": "$0->hasValue != 0 && g_live[0] != 0 && %s == $1->v" % VAL("$0"), "returns_self": "RET == $0"})
+    # the assigned value may be the Optional's own payload (opt = *opt)
+    U.fn("op_assign_value", harness=custom("op_assign_value(&A, (nondet__Bool() && in_ea) ? (Probe *)&A.storage : &V)", ret="OptProbe *"), requires=[REG0, INV0], assigns=["*$0"] + G,
+         ensures={"other_tracked_storage_untouched": "(g_live[1] != 0) == (OLD(g_live[1]) != 0)", "assigned_value_engages": "$0->hasValue != 0 && g_live[0] != 0 && %s == OLD($1->v)" % VAL("$0"), "returns_self": "RET == $0"})
     U.fn("op_emplace", harness=custom("op_emplace(&A, &V)", ret="Probe *"), requires=[REG0, INV0], assigns=["*$0"] + G,
          ensures={"other_tracked_storage_untouched": "(g_live[1] != 0) == (OLD(g_live[1]) != 0)", "emplace_engages_with_new_value": "$0->hasValue != 0 && g_live[0] != 0 && %s == $1->v" % VAL("$0"), "emplace_returns_the_payload": "RET == (Probe *)&$0->storage",
                   "emplace_destroys_old_payload_first": "g_dtors == (OLD($0->hasValue) != 0 ? 1 : 0)"})
